@@ -86,13 +86,13 @@ func isKeyPair(priv crypto.PrivateKey, pub crypto.PublicKey, keySpec KeySpec) bo
 	switch keySpec.Type {
 	case KeyTypeRSA:
 		privateKey, ok := priv.(*rsa.PrivateKey)
-		if !ok {
+		if !ok || privateKey == nil {
 			return false
 		}
 		return privateKey.PublicKey.Equal(pub)
 	case KeyTypeEC:
 		privateKey, ok := priv.(*ecdsa.PrivateKey)
-		if !ok {
+		if !ok || privateKey == nil {
 			return false
 		}
 		return privateKey.PublicKey.Equal(pub)
